@@ -1,5 +1,5 @@
 """C02 - edge errors and chi^2 implement the documented measurement model."""
-from .common import COMPACT, EDGE_KINDS, POINT_OF, POSE_KINDS, Case, mk_edge, mk_pose
+from .common import error_dim, COMPACT, EDGE_KINDS, POINT_OF, POSE_KINDS, Case, mk_edge, mk_pose
 from .c09 import ref_matrix
 
 PROPERTY = "C02"
@@ -278,6 +278,48 @@ def _graph_sum(eks, fixed=False):
     return fn
 
 
+def _parallel_and_relinked(ek):
+    """(a) several edges over the SAME ordered vertex pair: the graph's chi^2 counts every one of them; (b) an edge object
+    that is already linked to vertices (same ids, other poses - e.g. it was part of another Graph) is put into a new
+    Graph: its error and chi^2 are evaluated at the NEW graph's vertices"""
+
+    def fn(P, g):
+        import numpy
+
+        n = error_dim(ek)
+        names_a = ("p", "q", "z") if ek[0] == "odom" else ("p", "l", "z", "off")
+        e1, v1, v2 = mk_edge(P, g, ek, info=P.sym_matrix("om1", n), ids=(0, 1), names=names_a)
+        # a second and third observation between the same two vertices
+        twins = []
+        for k in (2, 3):
+            zk = mk_pose(P, g, ek[1] if ek[0] == "odom" else POINT_OF[ek[1]], "z%d" % k)
+            omk = P.sym_matrix("om%d" % k, n)
+            if ek[0] == "odom":
+                twins.append(g.EdgeOdometry([0, 1], omk, zk))
+            else:
+                twins.append(g.EdgeLandmark([0, 1], omk, zk, e1.offset, offset_id=0))
+        e1.vertices = None
+        gr = g.Graph([e1] + twins, [v1, v2])
+        total = 0.0
+        for e in gr._edges:
+            total = total + e.calc_chi2()
+        P.check("three_edges", len(gr._edges) == 3)
+        P.check_eq("parallel_edges_all_counted", gr.calc_chi2(), total)
+        # (b) re-use of the linked edge objects with other vertex objects of the same ids
+        pk, lk = ek[1], (ek[1] if ek[0] == "odom" else POINT_OF[ek[1]])
+        n1, n2 = g.Vertex(0, mk_pose(P, g, pk, "np")), g.Vertex(1, mk_pose(P, g, lk, "nq"))
+        gr2 = g.Graph([e1] + twins, [n1, n2])
+        P.check("relinked_objects", all(e.vertices[0] is n1 and e.vertices[1] is n2 for e in gr2._edges))
+        if ek[0] == "odom":
+            fresh = g.EdgeOdometry([0, 1], e1.information, e1.estimate, vertices=[n1, n2])
+        else:
+            fresh = g.EdgeLandmark([0, 1], e1.information, e1.estimate, e1.offset, offset_id=0, vertices=[n1, n2])
+        P.check_eq("relinked_error_at_new_vertices", e1.calc_error(), fresh.calc_error())
+        P.check_eq("relinked_chi2_at_new_vertices", e1.calc_chi2(), fresh.calc_chi2())
+
+    return fn
+
+
 def _fold_step(P, g):
     """chi2(G + e) = chi2(G) + chi2(e) with chi2 of the existing edges free symbols"""
     np = P.np
@@ -325,5 +367,7 @@ def cases(tier):
         out.append(Case("graphsum-" + "+".join("%s.%s" % ek for ek in eks), _graph_sum(eks), timeout=10, validate=1))
         if len(eks) <= 2:
             out.append(Case("graphsum-allfixed-" + "+".join("%s.%s" % ek for ek in eks), _graph_sum(eks, True), timeout=10, validate=1))
+    for ek in [("odom", "R2"), ("odom", "SE2"), ("lmk", "SE2"), ("lmk", "R3")]:
+        out.append(Case("parallel-relinked-%s-%s" % ek, _parallel_and_relinked(ek), timeout=10, validate=1))
     out.append(Case("fold-step", _fold_step, timeout=10, validate=v))
     return out
